@@ -265,6 +265,7 @@ func (m *locker) try(ctx context.Context, cancel context.CancelFunc, name string
 	deadline := now.Add(duration)
 	canceltm := time.AfterFunc(duration, cancel)
 	released := int32(0)
+	leaving := int32(0)
 	acquired := int32(0)
 	failures := int32(0)
 
@@ -289,14 +290,13 @@ func (m *locker) try(ctx context.Context, cancel context.CancelFunc, name string
 				}
 			}
 		}
-		released := atomic.AddInt32(&released, 1)
-		if released >= m.majority {
+		if atomic.AddInt32(&leaving, 1) >= m.majority {
 			cancel() // the lock context must be done before the key is given up below
 		}
 		if !errors.Is(err, ErrNotLocked) {
 			_ = m.script(context.Background(), delkey, key, val, deadline)
 		}
-		if released >= m.majority {
+		if released := atomic.AddInt32(&released, 1); released >= m.majority { // counted after the key is gone: the last one ends the unlock and wakes waiters
 			if released == m.totalcnt && atomic.LoadInt32(&failures) < m.majority {
 				m.mu.Lock()
 				if g.w--; g.w == 0 {
